@@ -27,7 +27,7 @@ from twisted.internet.task import Clock, Cooperator
 from twisted.python import log as txlog
 from twisted.python.failure import Failure
 from zope.interface import alsoProvides, implementer
-from twisted.internet.interfaces import ITransport, IConsumer
+from twisted.internet.interfaces import ITransport, IConsumer, IPullProducer, IPushProducer
 
 from wormhole import _interfaces
 from wormhole import ipaddrs as ipaddrs_mod
@@ -61,6 +61,10 @@ TRUSTED = [
     "pending / fired DelayedCall, a real twisted DelayedCall on task.Clock) is modelled with the four source flags "
     "of tools/extract.py; `got_connection` / `lost_connection` are taken as no_connection->connected[begin_timing] "
     "and ->no_connection[]; the peer never answers a Ping in these runs (pong handling is C16's)",
+    "application producers: endless pull / inert push sources registered on the SubChannel of a successful connect(); "
+    "the wormhole's Cooperator is a real twisted Cooperator scheduled on the EventualQueue as wormhole.create() does "
+    "(one iteration per tick instead of the wall-clock 10 ms slice); the connection's transport never pushes back, "
+    "producers never unregister or fail (flow control itself is C15's)",
     "inbound connections (dialled by the peer) that were never selected are closed by the peer, not by us: "
     "Connector tracks only outbound protocols in _pending_connections (the source says so in a TODO); reported as "
     "an observation tag, not a violation",
@@ -129,6 +133,34 @@ def vers_class(v):
     if isinstance(c, list) and any(isinstance(x, str) and x in DILATION_VERSIONS for x in c):
         return "capable"
     return "incapable"
+
+
+@implementer(IPullProducer)
+class PullSource:
+    """like FileSender in the middle of a file: one chunk per resumeProducing(), never done"""
+
+    def __init__(self, transport):
+        self.transport = transport
+        self.sent = 0
+
+    def resumeProducing(self):
+        self.sent += 1
+        self.transport.write(b"x" * 64)
+
+    def stopProducing(self):
+        pass
+
+
+@implementer(IPushProducer)
+class PushSource:
+    def pauseProducing(self):
+        pass
+
+    def resumeProducing(self):
+        pass
+
+    def stopProducing(self):
+        pass
 
 
 # ---------------------------------------------------------------------------
@@ -228,6 +260,8 @@ class World:
         self.attempts = []
         self.conns = []
         self.eps = []              # endpoint objects the application holds: (kind, subprotocol, endpoint)
+        self.protos = {}           # waiter index -> the application protocol a successful connect() built
+        self.sources = {}          # waiter index -> the producer that protocol registered on its subchannel
         self.waiters = []          # connect() outcomes: "pending" | "ok" | "err:<Class>"
         self.closed = 0
         self.stoppedD_calls = 0
@@ -404,10 +438,18 @@ class World:
             xs = " ".join(self._cflags(x, c) for x in self.conns if x.gen == g)
             cs.append(f"{automat_state(c)} L[{ls}] A[{ats}] X[{xs}]")
         regs = list(m._subprotocol_factories._factories.keys()) if m is not None else []
+        prods, out = [], "paused"
+        if m is not None:
+            ob = m._outbound
+            out = "paused" if ob._paused else "running"
+            for pr in ob._all_producers:
+                raw = getattr(pr, "_producer", pr)
+                i = next((k for k, sname in self.sources.items() if sname is raw), "?")
+                prods.append(f"{i}:{'pull' if raw is not pr else 'push'}:{'p' if pr in ob._paused_producers else 'u'}")
         d = self.D
         pend = f"{1 if d._pending_dilation_key is not None else 0}{1 if d._pending_wormhole_versions is not None else 0}{len(d._pending_inbound_dilate_messages)}"
         return (f"M={ms} key={key} ver={ver} role={role} conn={conn} timer={timer} tt={tt} main={main} fired={fired} T={automat_state(self.T)} "
-                f"closed={self.closed} D={pend} W=[{' '.join(self.waiters)}] E={len(self.eps)} R=[{' '.join(regs)}] C=[{' | '.join(cs)}]")
+                f"closed={self.closed} D={pend} W=[{' '.join(self.waiters)}] E={len(self.eps)} R=[{' '.join(regs)}] P=[{' '.join(prods)}] out={out} coop={1 if self.coop._stopped else 0} C=[{' | '.join(cs)}]")
 
     def _lflags(self, l, c):
         return "".join(["r" if l.ready else "-", "t" if l.port in c._listeners else "-", "s" if l.stopped else "-"])
@@ -444,8 +486,9 @@ class World:
             self.waiters.append("pending")
             d = api.connector_for("proto").connect(Factory.forProtocol(Protocol))
 
-            def ok(_):
+            def ok(p):
                 self.waiters[idx] = "ok"
+                self.protos[idx] = p
 
             def bad(f):
                 self.waiters[idx] = "err:" + f.type.__name__
@@ -472,12 +515,27 @@ class World:
             f = Factory.forProtocol(Protocol)
             d = ep.connect(f) if k == "econnect" else ep.listen(f)
 
-            def ok2(_):
+            def ok2(p):
                 self.waiters[idx] = "ok"
+                if k == "econnect":
+                    self.protos[idx] = p
 
             def bad2(f):
                 self.waiters[idx] = "err:" + f.type.__name__
             d.addCallbacks(ok2, bad2)
+            return None
+        if k == "producer":
+            # the protocol of connect() call i registers a producer on its transport (the SubChannel), as
+            # twisted.protocols.basic.FileSender (pull) or a streaming source (push) would in the middle of a transfer
+            i = op[2]
+            if i not in self.protos:
+                return "no-protocol"
+            if i in self.sources:
+                return "has-producer"
+            t = self.protos[i].transport
+            src = PullSource(t) if op[1] == "pull" else PushSource()
+            self.sources[i] = src
+            t.registerProducer(src, op[1] == "push")
             return None
         if k == "t":
             getattr(self.T, op[1])(*((("happy",)) if op[1] == "close" else ()))
@@ -1029,6 +1087,27 @@ def corpus():
     for body in ([1], "s", None, 5, [], 0, False, ""):        # not even a dict (Boss refuses these before the Dilator)
         out.append({"cfg": {}, "ops": [["dilate"], ["connect"], ["versions", "j", body], ["turn"]] + CLOSE, "name": "json/not-a-dict"})
         out.append({"cfg": {}, "ops": [["versions", "j", body], ["dilate"], ["connect"], ["turn"]] + CLOSE, "name": "json/not-a-dict"})
+    # close() in the middle of a transfer: application protocols on open subchannels have producers registered
+    # (pull = what FileSender does, wrapped in PullToPush and driven by the wormhole's Cooperator; push) that are still
+    # producing when the wormhole is closed; the loss of the connection arrives at any later point
+    for side in (LOW_SIDE, HIGH_SIDE):
+        conn = [["dilate"], ["key"], ["versions", "full"], ["connect"], ["connect"], ["msg", "please", side], ["inbound", 0], ["kcm", 0],
+                ["turn"], ["turn"]]
+        recon = ["msg", "reconnecting" if side == LOW_SIDE else "reconnect"]
+        for prods in ([["producer", "pull", 0]], [["producer", "push", 0]],
+                      [["producer", "pull", 0], ["producer", "push", 1]], [["producer", "push", 0], ["producer", "pull", 1]],
+                      [["producer", "pull", 0], ["producer", "pull", 1]]):
+            for mid in ([], [["turn"]], [["turn"], ["turn"], ["turn"]], [["lost", 0]], [["lost", 0], ["turn"]],
+                        [["expire"], ["expire"]],
+                        [["lost", 0], ["turn"], recon, ["inbound", 1], ["kcm", 1], ["turn"], ["turn"]],
+                        [["lost", 0], ["turn"], recon]):
+                out.append({"cfg": {}, "ops": conn + prods + mid + CLOSE, "name": "transfer"})
+            # the producer is registered while the connection is down (Outbound paused), then the wormhole is closed
+            out.append({"cfg": {}, "ops": conn + [["lost", 0], ["turn"]] + prods + CLOSE, "name": "transfer/down"})
+            out.append({"cfg": {}, "ops": conn + [["lost", 0], ["turn"]] + prods + [recon, ["inbound", 1], ["kcm", 1], ["turn"], ["turn"]] + CLOSE,
+                        "name": "transfer/down-up"})
+            # registered after the wormhole was closed (late application callback)
+            out.append({"cfg": {}, "ops": conn + CLOSE + prods + [["turn"], ["lost", 0], ["turn"]] + prods, "name": "transfer/late"})
     # an incapable peer that nevertheless asks to dilate
     out.append({"cfg": {}, "ops": [["key"], ["versions", "empty"], ["dilate"], ["connect"], ["turn"], ["msg", "please", LOW_SIDE],
                                    ["inbound", 0], ["kcm", 0], ["turn"], ["connect"], ["turn"]] + CLOSE, "name": "old-but-pleases"})
@@ -1136,6 +1215,11 @@ def gen_case(rng, adversarial):
             if x < 0.58:
                 do(["connect"])
                 continue
+            if x < 0.7 and w.protos and rng.random() < 0.5:
+                i = rng.choice(sorted(w.protos))
+                if i not in w.sources or (adversarial and rng.random() < 0.2):
+                    do(["producer", rng.choice(["pull", "pull", "push"]), i])
+                    continue
             if x < 0.66 and w.mgr() is not None:
                 y = rng.random()
                 if y < 0.3 or not w.eps:
